@@ -533,10 +533,18 @@ func vfC02CheckOne(t *rapid.T, c *vfC02Conf, q *vfC01Query, o *vfOutcome, blocke
 		}
 		got := vfWireStrings(o.Res.Answer)
 		exp := vfWireStrings(want)
+		if c.CacheOn {
+			// answers served from the cache carry aged TTLs
+			got, exp = vfDropTTL(o.Res.Answer), vfDropTTL(want)
+		}
 		if strings.Join(got, "\n") != strings.Join(exp, "\n") {
 			// with AAAA disabled the statement allows the removal of
 			// ipv6hint also on the gated paths
-			if !(c.AAAAOff && strings.Join(got, "\n") == strings.Join(vfWireStrings(vfStripV6Hints(upstreamRRs)), "\n")) {
+			alt := vfWireStrings(vfStripV6Hints(upstreamRRs))
+			if c.CacheOn {
+				alt = vfDropTTL(vfStripV6Hints(upstreamRRs))
+			}
+			if !(c.AAAAOff && strings.Join(got, "\n") == strings.Join(alt, "\n")) {
 				fail("answer not delivered unchanged: got %q want %q", got, exp)
 			}
 		}
@@ -562,6 +570,18 @@ func vfWireStrings(rrs []dns.RR) (ss []string) {
 	return ss
 }
 
+// vfDropTTL is vfWireStrings with every TTL set to zero.
+func vfDropTTL(rrs []dns.RR) (ss []string) {
+	var cp []dns.RR
+	for _, rr := range rrs {
+		rr = dns.Copy(rr)
+		rr.Header().Ttl = 0
+		cp = append(cp, rr)
+	}
+
+	return vfWireStrings(cp)
+}
+
 // vfCheckBlockedResponse is vfCheckBlocked plus: no record of the upstream
 // answer may appear in the reply.
 func vfCheckBlockedResponse(cc *vfC01Conf, q *vfC01Query, o *vfOutcome, upstreamRRs []dns.RR) (err error) {
@@ -570,11 +590,11 @@ func vfCheckBlockedResponse(cc *vfC01Conf, q *vfC01Query, o *vfOutcome, upstream
 		return err
 	}
 	up := map[string]bool{}
-	for _, rs := range vfWireStrings(upstreamRRs) {
+	for _, rs := range vfDropTTL(upstreamRRs) {
 		up[rs] = true
 	}
 	for _, rr := range o.Res.Answer {
-		if up[vfWireStrings([]dns.RR{rr})[0]] {
+		if up[vfDropTTL([]dns.RR{rr})[0]] {
 			return fmt.Errorf("upstream record delivered in a blocked reply: %s", rr)
 		}
 	}
